@@ -104,13 +104,15 @@ class Lib:
         self.order.append(("text", "enum Color { red = 0, green = 5, blue = -3 };\n"))
         self.host("A")
         self.host("AD", bases=("public A",))
-        self.twin.append("static A *g_A[3];\nextern \"C\" void *vf_a(int i) { return (void *)g_A[i]; }\n")
+        self.twin.append("static A *g_A[3];\nextern \"C\" void *vf_a(int i) { return (void *)g_A[i]; }\n"
+                         "static int vf_aid(const void *p) { for (int i = 0; i < 3; ++i) if (p == (const void *)g_A[i])"
+                         " return g_A[i]->vf_id; return p ? -1 : 0; }\n")
         self.reset.append("g_A[0] = new A; g_A[1] = new A; g_A[2] = new AD;"
                           " for (int i = 0; i < 3; ++i) { VfReg r = { g_A[i], &vf_desc_A }; g_reg.push_back(r); }")
 
     # --------------------------------------------------------------------- functions
     def add_func(self, key, ck, scope, fname, pk, rk=None, defaults=None, tag="", host=None,
-                 tn=True, dhost=None, family=None, spec=True):
+                 tn=True, dhost=None, family=None, spec=True, pfx="a", doms=None):
         """Declare one function and the specs of its wrappers (one per omitted default).
         ck: free | ns | method | cmethod | static | virtual | ctor
         pk: list of kind names; rk: return kind name or None (int hash of the trace entry)
@@ -123,7 +125,7 @@ class Lib:
         body = "%s#%s%s" % (scoped, ",".join(pk), tag)
         params = []
         for i, k in enumerate(kinds):
-            p = "%s a%d" % (k.cpp, i)
+            p = "%s %s%d" % (k.cpp, pfx, i)
             j = i - (len(kinds) - nd)
             params.append((p, (" = " + defaults[j]) if j >= 0 else ""))
         decl_params = ", ".join(p + d for p, d in params)
@@ -141,7 +143,7 @@ class Lib:
         else:
             host.pub.append("  " + decl)
         # ---- body
-        tr = " ".join(tr_code(k, "a%d" % i) for i, k in enumerate(kinds))
+        tr = " ".join(tr_code(k, "%s%d" % (pfx, i)) for i, k in enumerate(kinds))
         if ck in ("method", "cmethod", "virtual"):
             thisid = "vf_id"
         else:
@@ -158,7 +160,7 @@ class Lib:
         elif rkind is None:
             lines.append("  return VF_RET(h);")
         else:
-            lines.append("  " + self.ret_table(rkind, "a0"))
+            lines.append("  " + self.ret_table(rkind, pfx + "0"))
         lines.append("}")
         self.twin.append("\n".join(lines) + "\n")
         # ---- oracle entries + specs, one per omitted-default count
@@ -200,10 +202,10 @@ class Lib:
             else:
                 rcat = rkind.cat(string)
                 ret = ["k", rkind.name]
-            doms = [kk.dom for kk in kinds[:n]]
+            sdoms = [(doms or {}).get(kk.name, kk.dom) for kk in kinds[:n]]
             if rkind is not None:
-                doms = [list(range(self.ret_n(rkind)))]
-            steps = seq_steps(doms, 2 if this else 0)
+                sdoms = [list(range(self.ret_n(rkind)))]
+            steps = seq_steps(sdoms, 2 if this else 0)
             bodies = [body]
             if ck == "virtual" and dhost is not None:
                 # object 0 is a derived object seen through the base wrapper
@@ -214,7 +216,7 @@ class Lib:
                 "octypes": (["c_void_p"] if this else []) + [OCT[kk.oc] for kk in kinds[:n]],
                 "this": this, "body": bodies, "ret": ret, "steps": steps,
                 "tn": tn and nd == 0 and ck != "ctor", "omitted": k_om, "nparams": len(kinds),
-                "pk": pk[:n],
+                "pk": pk[:n], "pnames": ["%s%d" % (pfx, i) for i in range(n)],
             })
 
     def ret_n(self, k):
